@@ -243,13 +243,7 @@ def _unpack_stack(scope, only_errors=True):
 
 
 def _format_trace_value(value, maxlen):
-    try:
-        s = bbrepr(value)
-    except RecursionError:
-        # (a container that contains itself, or one nested hundreds of levels
-        # deep: reprlib has no cycle check, the builtin repr has)
-        s = repr(value)
-    s = s.replace("\\'", "'")
+    s = bbrepr(value).replace("\\'", "'")
     if len(s) > maxlen:
         try:
             suffix = '... (len=%s)' % len(value)
@@ -547,7 +541,16 @@ class _BBRepr(Repr):
         return _BUILTIN_ID_NAME_MAP.get(id(x), ret)
 
 
-bbrepr = recursive_repr()(_BBRepr().repr)
+_bbrepr = recursive_repr()(_BBRepr().repr)
+
+
+def bbrepr(obj):
+    try:
+        return _bbrepr(obj)
+    except RecursionError:
+        # (a container that contains itself, or one nested hundreds of levels
+        # deep: reprlib has no cycle check, the builtin repr has)
+        return repr(obj)
 
 
 class _BBReprFormatter(string.Formatter):
